@@ -44,6 +44,12 @@ fn gen_text(u: &mut Unstructured, big: bool) -> Vec<u8> {
             0 | 1 => String::new(),
             2 => "\r".into(),
             3 => "a\rb".into(),
+            // a line that is not UTF-8 (Latin-1 text, a truncated or overlong sequence): the lender yields an error
+            // item for it and goes on with the next line
+            4 if i % 4 == 1 => {
+                out.extend_from_slice([&b"b\xE9ta"[..], &b"\xFF"[..], &b"caf\xE2\x82"[..], &b"ok\xC0\xAFok"[..]][i / 4 % 4]);
+                String::new()
+            }
             4 => "x\r\r".into(),
             5 => "héllo wörld €😀".into(),
             6 if big => {
@@ -84,27 +90,28 @@ fn gen_text(u: &mut Unstructured, big: bool) -> Vec<u8> {
     out
 }
 
+/// What a line that is not valid UTF-8 stands for in the expected sequence: the
+/// lender must yield an error item there (std's `read_line` consumes the line
+/// and reports `InvalidData`), in every pass alike.
+const NOT_UTF8: &str = "\u{0}<not UTF-8>";
+
 /// The harness' own splitter: split at '\n', drop one preceding '\r'; a
 /// non-empty unterminated tail is a line.
 fn split_lines(text: &[u8]) -> Vec<String> {
-    let s = std::str::from_utf8(text).expect("generated text is UTF-8");
     let mut out = vec![];
-    let mut rest = s;
+    let mut rest = text;
     while !rest.is_empty() {
-        match rest.find('\n') {
-            Some(i) => {
-                let mut l = &rest[..i];
-                if l.ends_with('\r') {
-                    l = &l[..l.len() - 1];
-                }
-                out.push(l.to_string());
-                rest = &rest[i + 1..];
-            }
-            None => {
-                out.push(rest.to_string());
-                rest = "";
-            }
+        let (line, next, terminated) = match rest.iter().position(|b| *b == b'\n') {
+            Some(i) => (&rest[..i], &rest[i + 1..], true),
+            None => (rest, &rest[rest.len()..], false),
+        };
+        match std::str::from_utf8(line) {
+            // a CR belongs to the terminator only when there is a terminator
+            Ok(l) if terminated => out.push(l.strip_suffix('\r').unwrap_or(l).to_string()),
+            Ok(l) => out.push(l.to_string()),
+            Err(_) => out.push(NOT_UTF8.to_string()),
         }
+        rest = next;
     }
     out
 }
@@ -181,6 +188,10 @@ fn drive<T: ?Sized, L: RewindableIoLender<T>>(cx: &mut Ctx, l: L, oracle: &[Stri
                         (None, None) => ended = true,
                         (Some(Ok(s)), Some(w)) => {
                             cx.check(s == *w, "item", || format!("pass {pass}, item {pos}: got {:?}, expected {:?}", trunc(&s), trunc(w)))?;
+                            pos += 1;
+                            consumed_total += 1;
+                        }
+                        (Some(Err(_)), Some(w)) if w == NOT_UTF8 => {
                             pos += 1;
                             consumed_total += 1;
                         }
@@ -289,7 +300,7 @@ impl Property for C20 {
         vec![Segment::random("histories", tier.pick(480_000, 18_000_000), &[0], 48, 700), Segment::random("big-inputs", tier.pick(12_000, 600_000), &[1], 64, 3000)]
     }
     fn rule(&self) -> &'static str {
-        "case = (lender kind in {LineLender over Cursor / BufReader<File> / small-capacity BufReader, ZstdLineLender over Cursor / File, GzipLineLender over Cursor / File, FromIntoIterator over Vec<u32> / Range / Vec<String>}, optional take(m) with m in {0,1,len-1,len,len+1,..}, input text with empty lines, CRLF/LF/mixed terminators, lone CR, multi-byte characters, a first line starting with a UTF-8 byte-order mark or '#', zstd sources made of 1-3 concatenated frames and gzip sources of 1-3 members cut anywhere (for several gzip members the reference is the first pass of a fresh lender), lines longer than the BufReader, with/without final terminator, history of Next xj / Rewind with <=7 rewinds) decoded from bytes; oracle = the harness' own line splitter (resp. the item vector) truncated to m; every item of every pass compared, None exactly at the end, rewind() must be Ok. Non-trivial: a rewind after >=1 consumed item on a non-empty input; distinct = distinct hash of the decoded case."
+        "case = (lender kind in {LineLender over Cursor / BufReader<File> / small-capacity BufReader, ZstdLineLender over Cursor / File, GzipLineLender over Cursor / File, FromIntoIterator over Vec<u32> / Range / Vec<String>}, optional take(m) with m in {0,1,len-1,len,len+1,..}, input text with empty lines, CRLF/LF/mixed terminators, lone CR, multi-byte characters, lines that are not valid UTF-8 (an error item in every pass), a first line starting with a UTF-8 byte-order mark or '#', zstd sources made of 1-3 concatenated frames and gzip sources of 1-3 members cut anywhere (for several gzip members the reference is the first pass of a fresh lender), lines longer than the BufReader, with/without final terminator, history of Next xj / Rewind with <=7 rewinds) decoded from bytes; oracle = the harness' own line splitter (resp. the item vector) truncated to m; every item of every pass compared, None exactly at the end, rewind() must be Ok. Non-trivial: a rewind after >=1 consumed item on a non-empty input; distinct = distinct hash of the decoded case."
     }
     fn run(&self, data: &[u8], cx: &mut Ctx) -> R {
         let (mode, rest) = data.split_first().unwrap_or((&0, &[]));
@@ -304,6 +315,7 @@ impl Property for C20 {
         cx.label_if(!c.text.is_empty() && !c.text.ends_with(b"\n"), "no_final_newline");
         cx.label_if(c.text.windows(2).any(|w| w == b"\r\n"), "crlf");
         cx.label_if(c.text.starts_with(&[0xEF, 0xBB, 0xBF]), "bom_first");
+        cx.label_if(lines.iter().any(|l| l == NOT_UTF8), "invalid_utf8_line");
         let show_str: &dyn Fn(&str) -> String = &|s: &str| s.to_string();
         match c.kind {
             0 => run_kind!(cx, c, lines, show_str, LineLender::new(Cursor::new(c.text.clone()))),
